@@ -388,7 +388,7 @@ func main() {
 	var order []string
 	var stats []tlcStats
 	nops := 21 // size of the alphabet; checked against the Meta record below
-	samples := []smp{{env.Pick(250, 1500), 2, 2}, {env.Pick(40, 300), 3, 2}, {env.Pick(60, 600), 2, 3}, {env.Pick(0, 30), 3, 3}}
+	samples := []smp{{env.Pick(250, 1000), 2, 2}, {env.Pick(40, 200), 3, 2}, {env.Pick(60, 400), 2, 3}, {env.Pick(0, 20), 3, 3}}
 	mcs := map[string]string{"MCS.tla": sampleModule(rng, samples, nops)}
 	stats = append(stats, runIdeal(env, rep, cases, &order, map[bool]string{false: "ideal.cfg", true: "ideal_thorough.cfg"}[env.Thorough()], mcs, "MCS"))
 	if env.Thorough() {
